@@ -382,6 +382,53 @@ func c20DotPaths(ctx *Ctx, r *Rng) {
 		{"GET /{a}\n  Path\n  {\"a\": 1}\n  200 any\nPOST /x/{b}\n  200 any\n", "", "a"},
 	}
 	cases, bad := 0, 0
+	// paths whose FIRST segment is empty or ".": the automatic tag is that of the first real segment
+	for _, pr := range [][2]string{{"/./cats", "/./dogs"}, {"\"//cats\"", "\"//dogs/{id}\""}, {"/", "\"//dogs\""}, {"/./cats/{id}", "/././dogs"}, {"/cats", "/./dogs"}} {
+		for _, first := range []bool{false, true} {
+			old := "JSIGHT 0.3\nGET " + pr[0] + "\n  200 any\n"
+			doc := old + "POST " + pr[1] + "\n  200 any\n"
+			if first {
+				doc = "JSIGHT 0.3\nPOST " + pr[1] + "\n  200 any\nGET " + pr[0] + "\n  200 any\n"
+			}
+			b0 := RunProject(SingleFile([]byte(old)), false)
+			b1 := RunProject(SingleFile([]byte(doc)), false)
+			cases++
+			ctx.Cov.Count([]byte(doc), true)
+			ctx.Cov.Hit("fresh method whose path begins with an empty or '.' segment")
+			if !b0.Accepted() || b1.Panic != "" {
+				continue
+			}
+			in := projectInput(SingleFile([]byte(doc)))
+			in["op"] = "add"
+			in["original"] = hx([]byte(old))
+			if !b1.Accepted() {
+				bad++
+				ctx.Violate(Violation{Kind: "wrong-output", Site: "locality", What: "adding the method POST " + pr[1] + " makes the document rejected: " + b1.Verdict(), Input: in, Signature: "add-rejected:dot-path"})
+				continue
+			}
+			v0, _, e0 := ParseOJSON(b0.JSON)
+			v1, _, e1 := ParseOJSON(b1.JSON)
+			if e0 != nil || e1 != nil {
+				continue
+			}
+			msg := ""
+			for _, coll := range []string{"interactions", "tags"} {
+				c0, c1 := v0.Get(coll), v1.Get(coll)
+				if len(c1.Keys()) != len(c0.Keys())+1 {
+					msg = fmt.Sprintf("%d %s became %d", len(c0.Keys()), coll, len(c1.Keys()))
+				}
+				for _, key := range c0.Keys() {
+					if c1.Get(key) == nil || c1.Get(key).Canon(false) != c0.Get(key).Canon(false) {
+						msg = "the entry " + coll + "[" + key + "] changed: " + trunc(c0.Get(key).Canon(false), 250) + " became " + trunc(c1.Get(key).Canon(false), 250)
+					}
+				}
+			}
+			if msg != "" {
+				bad++
+				ctx.Violate(Violation{Kind: "wrong-output", Site: "locality", What: "adding the method POST " + pr[1] + " (another first segment): " + msg, Input: in, Signature: "add-changed:dot-path"})
+			}
+		}
+	}
 	for bi, b := range bases {
 		for k, mk := range []func(prefix, par string) string{
 			func(prefix, par string) string { return "/v2/.." + prefix + "/{" + par + "}" },
